@@ -158,6 +158,12 @@ func (tx *Transaction) validateSigner(ctx *action.Context, signedTx action.Signe
 	if !tx.From.Equal(addr.Bytes()) {
 		return errors.New("mismatch sender")
 	}
+	// the public key of the envelope is not covered by the Ethereum signature: accept only the
+	// key the signature was made with (what EthToOLSignedTx puts there)
+	h, err := signedTx.Signatures[0].Signer.GetHandler()
+	if err != nil || !h.Address().Equal(tx.From) {
+		return errors.New("mismatch signer public key")
+	}
 	return nil
 }
 
@@ -233,6 +239,12 @@ func (otx olvmTx) Validate(ctx *action.Context, signedTx action.SignedTx) (bool,
 		return false, err
 	}
 
+	// the signature is the one of a legacy Ethereum transaction: the type and the access list of
+	// the payload are outside of it, and the access list would change what the sender pays
+	if tx.TxType != ethtypes.LegacyTxType || tx.AccessList != nil {
+		return false, ethtypes.ErrTxTypeNotSupported
+	}
+
 	err = action.ValidateFee(ctx.FeePool.GetOpt(), signedTx.Fee)
 	if err != nil {
 		return false, err
@@ -262,8 +274,9 @@ func (otx olvmTx) Validate(ctx *action.Context, signedTx action.SignedTx) (bool,
 		return false, err
 	}
 
-	// double spend protection
-	if memoNonce != tx.Nonce {
+	// double spend protection; the memo is outside of the signature, so only the canonical
+	// spelling of the nonce is accepted ("007" would be another transaction with the same effect)
+	if memoNonce != tx.Nonce || signedTx.Memo != strconv.FormatUint(tx.Nonce, 10) {
 		return false, errors.New("wrong memo for nonce")
 	}
 
